@@ -600,7 +600,7 @@ def rule_style_forwarding(ctx, p, cfg, rid="X8"):
                 # the buffering writer: a style request is queued behind the text already buffered, on every path, and never
                 # handed to the wrapped writer directly (it would overtake that text)
                 direct = [c for c in f.calls("encode::Write::set_style")]
-                pushes = [c for c in f.calls() if (c.callee or "").endswith("::push") and any(x[0] == "agg" and x[2] == "Style" and any(y == ("param", 2) for y in walk(x)) for x in walk(c.arg(1)))]
+                pushes = [c for c in f.calls() if (c.callee or "").endswith("::push") and any(deep_strip(y) == ("param", 2) for y in walk(c.arg(1)))]
                 okq = len(pushes) == 1 and not direct and all(rb in f.reach(pushes[0].block) for rb in f.return_blocks()) and not q.skipping_paths(f, 0, [pushes[0].block], set(f.return_blocks()))
                 r.require(okq, "queues-style-behind-buffered-text:%s" % who, fn=f, detail="the request is pushed to the buffer on every path; no direct set_style on the wrapped writer",
                           fail_detail="RightAlignWriter::set_style %s: a style applied directly overtakes the text still buffered for right alignment" % (
